@@ -66,6 +66,8 @@ type asmReplayer struct {
 	traceFiles   []string // Direction B: traces recorded by the CLI runs
 	traceSrc     []string
 	traceSeq     int64
+	historyDep   []string // in-process disagreements that fresh processes do not show
+	nHistoryDep  int
 }
 
 func (c *Ctx) newAsmReplayer(keepMod uint64, cliEvery int64) (*asmReplayer, error) {
@@ -186,6 +188,14 @@ func (r *asmReplayer) finish() error {
 	r.pool.close()
 	if r.err != nil {
 		return r.err
+	}
+	if r.nHistoryDep > 0 {
+		r.c.Cov["history_dependent_in_process_results"] = r.nHistoryDep
+		if len(r.c.Violations) == 0 {
+			// compilations in one process influence each other (C08's subject); for this property the
+			// run is inconclusive unless a fresh-process violation was found as well
+			return fmt.Errorf("%d in-process results differ from fresh-process results of the same program (state leaks between compilations in one process - see C08), e.g. %s", r.nHistoryDep, r.historyDep[0])
+		}
 	}
 	// Direction B: the executions recorded by the CLI runs must be behaviours of AsmShape
 	var files, srcs []string
@@ -409,7 +419,16 @@ func (r *asmReplayer) replay(cs AsmCase) error {
 				}
 			}
 			if cv == "" {
-				return fmt.Errorf("disagreement seen in-process was not reproduced by 41 CLI runs: %s; program %q", verdict, cs.Lines)
+				// Not reproducible in fresh processes: the in-process result depended on what the
+				// worker compiled before (state that survives between compilations in one process).
+				// This says nothing about THIS program on its own; remember it and go on.
+				r.errMu.Lock()
+				if len(r.historyDep) < 5 {
+					r.historyDep = append(r.historyDep, fmt.Sprintf("%s; program %q", verdict, cs.Lines))
+				}
+				r.nHistoryDep++
+				r.errMu.Unlock()
+				return nil
 			}
 			cv = "(in some executions only) " + cv
 		}
